@@ -12,6 +12,8 @@ def spec(tier):
                  what="7-file workspace (module with type + interface + procedure; module using it with EXTENDS across 3 files / declared variables / component access / type-bound link / two INCLUDEs, one through './'; a submodule; the include files), histories of 2 (quick) / 3 (thorough) events out of 31 (query everything, edit to one of 5 versions of the module or 2 of an include file without saving, ranged edit, save a version, close, delete, re-create), all final versions, ending either with one save of exactly the files that changed (ascending / descending order) or (thorough) with every file saved twice: the dump (completion after v% and w%, 7 definitions + hovers, references, diagnostics, document and workspace symbols) equals a freshly started server's")
     obs += parts("I.init_orders", F, "init_orders", 16, T, path_timeout=300,
                  what="fresh start: the real workspace_init (directory walk and process pool replaced by stand-ins) over the 7 files in all 7! (thorough) / 840 evenly spread (quick) enumeration orders x 5 x 2 versions gives the same dump as in ascending order")
+    obs += [XH("S.scenarios", F, "scenarios", 250 if q else 900, path_timeout=200,
+               what="7 further cross-file scenarios on small workspaces (PASS(name) binding whose target renames its arguments; include file of dummy-argument declarations emptied / deleted / changed then deleted; user module named like an intrinsic module renamed / deleted; preprocessed files of two directories saved in turn), with and without re-opening: hover, definition, signature help, completion at the probes, diagnostics and outlines equal a fresh server's (real workspace_init)")]
     return dict(
         obligations=obs,
         functions=["workspace_init", "file_init", "serve_onOpen", "serve_onChange", "serve_onSave", "serve_onClose", "update_workspace_file", "FortranAST.resolve_links", "resolve_includes",
